@@ -44,6 +44,7 @@ func (m *Mutex) Lock() {
 		s.Block(m)
 	}
 	m.locked = true
+	held(s, 1)
 }
 
 func (m *Mutex) TryLock() bool {
@@ -56,6 +57,7 @@ func (m *Mutex) TryLock() bool {
 		return false
 	}
 	m.locked = true
+	held(s, 1)
 	return true
 }
 
@@ -69,6 +71,7 @@ func (m *Mutex) Unlock() {
 		panic("vsync: unlock of unlocked mutex")
 	}
 	m.locked = false
+	held(s, -1)
 	s.Wake(m)
 	s.Point("unlock", m)
 }
@@ -92,6 +95,7 @@ func (m *RWMutex) Lock() {
 		s.Block(m)
 	}
 	m.writer = true
+	held(s, 1)
 }
 
 func (m *RWMutex) Unlock() {
@@ -104,6 +108,7 @@ func (m *RWMutex) Unlock() {
 		panic("vsync: unlock of unlocked rwmutex")
 	}
 	m.writer = false
+	held(s, -1)
 	s.Wake(m)
 	s.Point("unlock", m)
 }
@@ -118,7 +123,7 @@ func (m *RWMutex) RLock() {
 	for m.writer {
 		s.Block(m)
 	}
-	m.readers++
+	m.readers++ // a read lock does not make statement steps "protected": writes under RLock must be interleavable
 }
 
 func (m *RWMutex) RUnlock() {
@@ -133,4 +138,27 @@ func (m *RWMutex) RUnlock() {
 	m.readers--
 	s.Wake(m)
 	s.Point("runlock", m)
+}
+
+// Stepper is optionally implemented by the scheduler: Step is called before
+// every statement of instrumented library files.
+type Stepper interface{ Step() }
+
+// Step marks a statement boundary in instrumented code.  Free-running: no-op.
+func Step() {
+	if s := Active; s != nil {
+		if st, ok := s.(Stepper); ok {
+			st.Step()
+		}
+	}
+}
+
+// Holder is optionally implemented by the scheduler to learn how many shim
+// locks the running thread holds (to tell protected from unprotected steps).
+type Holder interface{ Held(delta int) }
+
+func held(s Sched, d int) {
+	if h, ok := s.(Holder); ok {
+		h.Held(d)
+	}
 }
